@@ -227,12 +227,18 @@ CompressClauses(ln, st) ==
                                 /\ ln.maxbond = MaxOf(ln.bonds)
                                 /\ Len(ln.bonds) = L - 1>>,
      <<"Untruncated", (ok /\ nothing) => (ln.same = 0 /\ (ln.ongrid => ln.val = a.val))>>,
-     <<"CentreWherePromised", (ok /\ pc > 0) => CanonicalAround(pc, ln.liso, ln.riso)>>,
-     <<"ErrorBound", (ok /\ ln.method \in Canonical /\ ln.form # "flat") => ln.err2q <= ln.disc2q>>,
+     \* (equalize_norms rescales every tensor: isometries are then only isometries up to a factor - not judged)
+     <<"CentreWherePromised", (ok /\ pc > 0 /\ ~ln.eqn) => CanonicalAround(pc, ln.liso, ln.riso)>>,
+     \* normalize=True: the result has norm 1 (truncated or not); `val` / `same` above are then taken relative to
+     \* input / ||input||
+     <<"NormIsOne", (ok /\ ln.normalize) => ln.normq = 0>>,
+     \* the plain spelling leaves its operand alone
+     <<"InputUntouched", (ok /\ ~ln.inplace) => ln.inputsame = 0>>,
+     <<"ErrorBound", (ok /\ ln.method \in Canonical /\ ln.form # "flat" /\ ~ln.normalize) => ln.err2q <= ln.disc2q>>,
      \* S->C replays carry the prediction of C09_Compress: final bonds, centre, losslessness
      <<"NOTE:SweepModel", (ok /\ Has(ln, "model")) =>
            /\ ln.bonds = ln.model.bonds
-           /\ (ln.model.centre > 0 => CanonicalAround(ln.model.centre, ln.liso, ln.riso))
+           /\ ((ln.model.centre > 0 /\ ~ln.eqn) => CanonicalAround(ln.model.centre, ln.liso, ln.riso))
            /\ ((~ln.model.lossy /\ ln.cutoff0) => ln.same = 0)>>,
      <<"NOTE:SweepModelRejects", (~ok /\ Has(ln, "model") /\ ~NumericalRefusal(ln.method, ln.exc)) => ln.model.rejected>> >>
 
